@@ -109,8 +109,8 @@ class _Case:
     def sector(self, mpo=False):
         return H.pick_sector(self.rng, self.qd, self.L, mpo=mpo)
 
-    def cmp(self, fn, clause, got, ref, scale, what):
-        if not oracle.close(got, ref, scale=max(1.0, scale), tol=1e-9):
+    def cmp(self, fn, clause, got, ref, scale, what, rel=False):
+        if not oracle.close(got, ref, scale=(scale if rel and scale > 0 else max(1.0, scale)), tol=1e-9):
             got = np.asarray(got); ref = np.asarray(ref)
             dev = _nrm(got - ref) if got.shape == ref.shape else f'shape {got.shape} vs {ref.shape}'
             self.fail(fn, clause, f'{what}: deviation {dev} (scale {scale:.3g})')
@@ -257,6 +257,13 @@ def run_case(c):
             if not ok1:
                 return dict(failures=k.fails, nontrivial=True, key=json.dumps(c, sort_keys=True))
             a = ab
+        if c['seed'] % 4 == 1 and all(np.issubdtype(T.dtype, np.inexact) for T in a.A) and len(a.A) >= 1:
+            # the same operator with a badly balanced gauge (tiny first tensor, huge last one), or of tiny overall magnitude: partial
+            # products far below machine epsilon are ordinary numbers, not noise
+            if len(a.A) >= 2 and (c['seed'] // 4) % 2:
+                a.A[0] = a.A[0] * 1e-25; a.A[-1] = a.A[-1] * 1e25
+            else:
+                a.A[0] = a.A[0] * 1e-30
         objs = [a]
         ref = oracle.mpo_dense(a.A)
         good, sp = k.call('MPO.as_matrix', a.as_matrix, sparse_format=True)
@@ -266,9 +273,9 @@ def run_case(c):
                 spd = sp.toarray()
             except AttributeError:
                 spd = np.asarray(sp)
-            k.cmp('MPO.as_matrix', 'sparse_equals_dense', spd, de, _nrm(ref), 'as_matrix(sparse_format=True) vs as_matrix()', )
-            k.cmp('MPO.as_matrix', 'dense', de, ref, _nrm(ref), 'as_matrix() vs independent contraction')
-            k.cmp('MPO.as_matrix', 'sparse', spd, ref, _nrm(ref), 'as_matrix(sparse_format=True) vs independent contraction')
+            k.cmp('MPO.as_matrix', 'sparse_equals_dense', spd, de, _nrm(ref), 'as_matrix(sparse_format=True) vs as_matrix()', rel=True)
+            k.cmp('MPO.as_matrix', 'dense', de, ref, _nrm(ref), 'as_matrix() vs independent contraction', rel=True)
+            k.cmp('MPO.as_matrix', 'sparse', spd, ref, _nrm(ref), 'as_matrix(sparse_format=True) vs independent contraction', rel=True)
         bad = oracle.wf_mpo(a)
         if bad:
             k.fail('MPO.as_matrix', 'args_unchanged', 'the MPO is malformed after the sparse / dense conversions: ' + '; '.join(bad))
